@@ -407,17 +407,28 @@ func replayFile(def *PropDef, path, out string) int {
 	}
 	w := execCase(def, &cs)
 	type rr struct {
-		Reproduced bool       `json:"reproduced"`
-		Got        *Violation `json:"got"`
-		Want       *Violation `json:"want"`
-		Trace      uint64     `json:"trace"`
-		WantTrace  uint64     `json:"want_trace"`
+		Reproduced  bool       `json:"reproduced"`
+		Got         *Violation `json:"got"`
+		Want        *Violation `json:"want"`
+		Trace       uint64     `json:"trace"`
+		WantTrace   uint64     `json:"want_trace"`
+		AnyUnlisted string     `json:"any_unlisted,omitempty"`
 	}
 	r := rr{Got: w.viol, Want: cs.Expect, Trace: w.stats.Trace, WantTrace: cs.TraceHash}
 	r.Reproduced = w.viol != nil && cs.Expect != nil && w.viol.Sig == cs.Expect.Sig && w.stats.Trace == cs.TraceHash
 	for _, ev := range w.extra {
 		if cs.Expect != nil && ev.Sig == cs.Expect.Sig && w.stats.Trace == cs.TraceHash {
 			r.Reproduced = true
+		}
+	}
+	if def.NoMinimise && w.viol != nil && w.stats.Trace == cs.TraceHash {
+		// race mode: the schedule replayed exactly; which of several racing pairs the detector
+		// still holds in its bounded shadow state can differ between processes
+		known := loadKnown(os.Getenv("COLSIM_KNOWN"), def.ID)
+		for _, ev := range append([]*Violation{w.viol}, w.extra...) {
+			if !isKnown(known, ev.Sig, w.triggerList()) {
+				r.AnyUnlisted = ev.Sig
+			}
 		}
 	}
 	jb, _ := json.Marshal(r)
